@@ -41,6 +41,12 @@ func init() {
 	c17.thorough = tierCfg{runs: 200000, budget: 1200}
 	c17.technique = "deterministic simulation: seeded scheduler interleaving fetches on a shared handle, sum's workers and HTTP handler goroutines at statement granularity, results compared with sequential execution; plus a free-running -race pass (runtime monitoring) for race freedom itself"
 	props["C17"] = c17
+	c15 := cli("each run takes one valid file produced by a seeded fill history (or the real response of a remote view / view-raw / sum / diff over the simulated wire) and applies, one after the other, every truncation length (all below 600 bytes, the last 4, 1 in 20 beyond), every 32-bit header field x 13 boundary values (0, 1, 2, 2^31-1, 2^31, 2^32-1, values whose product with 12 wraps 32 bits, ...), for wire bodies also the series/point-list framing fields with 64-bit boundary values, 48 seeded bit flips, extension and zeroing; the damaged object is opened and used (fetch of every archive, raw dump, single and batch update, Sync; or decoded by the real client), also with the damage applied under an open handle. Each operation must return without panic, within a statement budget, having allocated at most 64 KiB + 64 x input bytes; a worker killed by the runtime under its address-space cap is attributed to the journaled case. Non-trivial: a damaged object that still opened / decoded was exercised; distinct = distinct case hash")
+	c15.level = "fault_enumeration"
+	c15.quick = tierCfg{runs: 400, budget: 45}
+	c15.thorough = tierCfg{runs: 40000, budget: 1200}
+	c15.technique = "deterministic simulation with fault injection: stored-byte and wire corruption enumerated per sampled object, allocation and statement budgets, address-space cap per worker"
+	props["C15"] = c15
 	c13 := lib("each run is 2-5 actors (writers doing read-modify-write of a generation stamp over every slot of a multi-page archive, readers, abandoners, openers that fail after the descriptor was obtained) performing up to 14 sessions on one file under the seeded scheduler with statement-level preemption; invariants after every event, final counter, lock-lifetime probes and a porcupine linearizability check of the session history. Non-trivial: lock contention actually occurred (an opener parked in the lock hook while a handle was held) or a failed open was probed; distinct = distinct case hash; distinct interleavings = distinct context-switch signatures")
 	c13.quick = tierCfg{runs: 3000, budget: 45}
 	c13.thorough = tierCfg{runs: 300000, budget: 1200}
